@@ -322,7 +322,7 @@ func cSess(s vSess) string {
 	return cCtor("mk_session", cN(uint64(s.MyASN)), cOptStr(s.RouterID), cStr(s.VRF), cStr(s.PeerAddr), cBool(addr4),
 		cStr(s.Iface), cN(uint64(s.PeerASN)), cStr(s.DynASN), cOptStr(s.Src), cN(uint64(s.Port)),
 		cOptDur(s.Hold), cOptDur(s.Keep), cOptDur(s.Connect), cStr(s.Password), cStr(s.BFD),
-		cBool(s.GR), cBool(s.MultiHop), cBool(s.DisableMP), cList(advs))
+		cBool(s.GR), cBool(s.MultiHop), cBool(s.DisableMP), cList(advs), cPair(cStr(s.SecretN), cStr(s.SecretNS)))
 }
 
 func cSessList(ss []vSess) string {
